@@ -907,9 +907,9 @@ def _eig_case(t, Mx, rp, repeated):
     Vm = V.reshape(3, 3)
     sc = max(np.max(np.abs(Mx)), 1.0)
     if it >= 500:
-        t.part.add("eig3_not_converged", 1)
-        t.done("mju_eig3", rp)
-        return
+        # cyclic Jacobi on a symmetric 3x3 matrix converges; hitting the cap is only counted, but the returned
+        # decomposition is still judged (a wrong result after 500 rotations is not a tolerance question)
+        t.part.add("eig3_iteration_cap_reached", 1)
     e_orth = float(np.max(np.abs(Vm.T @ Vm - np.eye(3))))
     e_rec = float(np.max(np.abs((Vm * ev) @ Vm.T - Mx))) / sc
     e_q = float(np.max(np.abs(quat2mat(q) - Vm)))
@@ -2026,7 +2026,7 @@ def run(ctx):
         "mju_cholFactorBand return value: accepted as the minimum pivot before OR after the square root (the documentation says "
         "'minimum value of the factorized diagonal', the code returns the pivot before sqrt)",
         "mju_transposeSparse with rowadr[0] != 0 is called the way the engine calls it (value / colind pointers pre-offset)",
-        "iterative routines: mju_eig3 runs that return 500 iterations, QCQP runs whose Newton iteration stops short of the boundary "
+        "iterative routines: mju_eig3 runs that hit the 500-iteration cap are counted and their result is still judged; QCQP runs whose Newton iteration stops short of the boundary "
         "(stationary with a too small multiplier) and box-QP runs whose status is not a converged one are counted, not judged",
         "raw entry points are unguarded: inputs that make them call mju_error are not generated",
     ]
